@@ -371,6 +371,24 @@ fn string_from_utf8''')]},
     {'name': 'U3 single index slices one byte instead of one character', 'prop': 'C13', 'expect': 'U3 / yarel::vm::Vm::string_get_item / str slice',
      'edits': [(VM, "                let mut end = begin + 1;\n                while end <= string.len() && !string.as_str().is_char_boundary(end) {\n                    end += 1;\n                }\n                (begin, end)",
                 "                let end = begin + 1;\n                (begin, end)")]},
+    # ---- C14 ----------------------------------------------------------------------------------------
+    {'name': 'M1 loader consulted before the registry', 'prop': 'C14', 'expect': 'M1 / start_import_impl: module loader call only on the miss edge',
+     'edits': [(VM, "        let path = self.read_string();\n\n        if let Some(module) = self.modules.get(&path).map(|m| m.as_gc()) {",
+                "        let path = self.read_string();\n        let preloaded = (self.module_loader)(&path);\n\n        if let Some(module) = self.modules.get(&path).map(|m| m.as_gc()) {"),
+               (VM, "        let source = match (self.module_loader)(&path) {", "        let source = match preloaded {")]},
+    {'name': 'M1 Vm::module creates a fresh module object every time', 'prop': 'C14', 'expect': 'M1 / Vm::module returns the registered object before creating one',
+     'edits': [(VM, "        let path = self.new_gc_obj_string(path);\n        if let Some(module) = self.modules.get(&path) {\n            return module.as_gc();\n        }\n        let module = Root::new(RefCell::new(ObjModule::new(",
+                "        let path = self.new_gc_obj_string(path);\n        let module = Root::new(RefCell::new(ObjModule::new(")]},
+    {'name': 'M1 imported flag set when the import starts', 'prop': 'C14', 'expect': 'M1 / ObjModule.imported is set only by finish_import_impl',
+     'edits': [(VM, "        let module = self.module(&path);\n        self.push(Value::ObjModule(module));\n\n        let closure", "        let module = self.module(&path);\n        module.borrow_mut().imported = true;\n        self.push(Value::ObjModule(module));\n\n        let closure")]},
+    {'name': 'M2 undefined globals fall back to the main module', 'prop': 'C14', 'expect': 'M2 / get_global_impl',
+     'edits': [(VM, "            .get(&name)\n            .map(|&v| v);\n        if let Some(value) = value {", "            .get(&name)\n            .map(|&v| v);\n        let value = value.or_else(|| self.modules.values().next().and_then(|m| m.borrow().attributes.get(&name).copied()));\n        if let Some(value) = value {")]},
+    {'name': 'M2 module body closure bound to the importer', 'prop': 'C14', 'expect': 'M2 / start_import_impl: the module body closure belongs to the imported module',
+     'edits': [(VM, "        let closure = self.new_root_obj_closure(function.as_gc(), module);\n        self.push(Value::ObjClosure(closure.as_gc()));\n\n        self.call_value(self.peek(0), 0)?;", "        let closure = self.new_root_obj_closure(function.as_gc(), self.active_module);\n        self.push(Value::ObjClosure(closure.as_gc()));\n\n        self.call_value(self.peek(0), 0)?;")]},
+    {'name': 'M3 loader failure ends the run instead of raising', 'prop': 'C14', 'expect': 'start_import_impl',
+     'edits': [(VM, "            Ok(s) => s,\n            Err(e) => {\n                return self.try_handle_error(e);\n            }\n        };\n\n        let function = match compiler::compile", "            Ok(s) => s,\n            Err(e) => {\n                return Err(e);\n            }\n        };\n\n        let function = match compiler::compile")]},
+    {'name': 'M3 compile failure of a module reported as RuntimeError', 'prop': 'C14', 'expect': 'M3 / errors built in start_import_impl',
+     'edits': [(VM, 'let mut error = error!(ErrorKind::ImportError, "Error compiling module:");', 'let mut error = error!(ErrorKind::RuntimeError, "Error compiling module:");')]},
 ]
 
 BENIGN = [
